@@ -1,6 +1,6 @@
 #!/bin/bash
 # Runs every claimed quick check on the current /repo tree (used before committing evidence).
-cd /verif
+cd "$(dirname "$0")/.."
 if [ -n "$(git -C /repo status --porcelain)" ]; then echo "WARNING: /repo working tree is not clean"; fi
 rc=0
 for id in $(python3 -c "import json;print(' '.join(c['property_id'] for c in json.load(open('MANIFEST.json'))['checks']))"); do
